@@ -94,6 +94,9 @@ class Shared(torch.nn.Module):
         act = [m for m in self.net.modules() if isinstance(m, torch.nn.ReLU)][0]
         act.register_forward_hook(_user_hook)
         self._scale = None
+        # a partially frozen model (frozen trunk, trainable head): the flags are the caller's, parameter by parameter
+        for p_ in list(self.net.parameters())[:2]:
+            p_.requires_grad_(False)
         if VARIANT == "lazy_module":
             self.net = torch.nn.Sequential(LazyStem(seed), *list(self.net.children()))
         if VARIANT == "legacy_hook":
